@@ -188,6 +188,8 @@ pub struct OutcomeRec {
     pub backlog_at_stop: Option<(u64, u64)>,
     #[serde(default)]
     pub max_capacity_request: u64,
+    #[serde(default)]
+    pub alive_at_main_return: Vec<String>,
 }
 
 impl From<Outcome> for OutcomeRec {
@@ -216,6 +218,7 @@ impl From<Outcome> for OutcomeRec {
             aborted: o.aborted,
             backlog_at_stop: o.backlog_at_stop,
             max_capacity_request: o.max_capacity_request,
+            alive_at_main_return: o.alive_at_main_return,
         }
     }
 }
@@ -283,6 +286,7 @@ impl ExecResult {
             && self.outcome.deadlock.is_none()
             && !self.outcome.budget_exceeded
             && self.outcome.max_capacity_request <= MAX_SANE_CAPACITY_REQUEST
+            && self.outcome.alive_at_main_return.is_empty()
             && self.outcome.leaked_threads.is_empty()
     }
     /// One-line description of the first disorderly symptom, with a stable "site" for matching.
@@ -318,6 +322,16 @@ impl ExecResult {
                     "a bounded data queue of {} slots was requested (crossbeam allocates every slot at creation: with packets of ~100 bytes that is {} MiB before a single packet is sent); the limit taken as sane is 2^20 slots",
                     self.outcome.max_capacity_request,
                     self.outcome.max_capacity_request / 10_000
+                ),
+            ));
+        }
+        if !self.outcome.alive_at_main_return.is_empty() {
+            return Some((
+                "threads-alive-at-exit".into(),
+                "main-returned-before-its-workers".into(),
+                format!(
+                    "the program's main function returned while these threads had not finished (a real process ends there, whatever they were still doing - e.g. flushing an output file): {}",
+                    self.outcome.alive_at_main_return.join(", ")
                 ),
             ));
         }
